@@ -132,7 +132,9 @@ def evaluate(sb, cfg, before, after, res, code, dest, reference, in_bytes):
     w_in = tuple(sb.rel(str(sb.root / "w" / input_name(cfg))))
     dkey = tuple(sb.rel(str(dest))) if dest is not None else None
     both = cfg["inplace"] and cfg["output"] != "none"
-    writes = cfg["proto"] < cur and dest is not None and not both
+    # an input that cannot be loaded at all (e.g. the recorded C08 finding: protocol-0 Generator archives) is outside "an archive
+    # older than the current protocol is rewritten": the CLI must fail and leave everything untouched
+    writes = cfg["proto"] < cur and dest is not None and not both and cfg.get("loadable", True)
     outcome = (res or {}).get("outcome")
     if res is None or "child_error" in (res or {}):
         return [f"harness: child failed ({code}): {(res or {}).get('child_error', '')[-300:]}"]
